@@ -104,18 +104,18 @@ CLAIMED["C16"] = ("effect extraction (E6) of the DHCPv6 builders and relay (de)c
 ADDENDA = {
  "C01": " Also: every key of the option map reaches the collecting append of the key sorter (only 82/255 bypass it).",
  "C02": " Also: the numeric value of every wire-enum constant (option codes, message types, DUID types, status codes) equals the IANA-assigned number in spec/constants.json.",
- "C03": " Bounds obligations the compiler leaves open go through a relational bounds prover (D10) before the ledger; ledger entries may require slots of the current wire schema (schema_slots).",
- "C04": " Also: DHCPv4 wire-enum constants equal spec/constants.json.",
+ "C03": " Also: a maybe-nil pointer result is not boxed into an interface without a nil test (typed nil); no encoder serialises the same sub-value or collection twice on a path (shared C09-K4). Bounds obligations the compiler leaves open go through a relational bounds prover (D10) before the ledger; ledger entries may require slots of the current wire schema (schema_slots).",
+ "C04": " Also: the option Lexer is built over the parameter itself (nothing trimmed beforehand); every consumed instance reaches the store. Also: DHCPv4 wire-enum constants equal spec/constants.json.",
  "C05": " Also: wire-enum constants equal spec/constants.json; the 255-octet cap of the label decoder is a test on the length of the name being assembled.",
  "C06": " Also: length-field narrowing (C06-K5): every uintN(len(x)) written as a length is the length of raw field bytes or of a nested encoding whose encoder closure does not pad. One site violates it on the pinned tree and is a KNOWN FINDING (F9: (dhcpv6.Options).ToBytes, demonstrated in findings/F9-C06-length-overflow, not repairable without an API change).",
- "C07": " Also: DHCPv4 wire-enum constants equal spec/constants.json.",
+ "C07": " Also: options 82 and 255 are re-appended exactly when the key is present (presence flag or comma-ok), not when the value is non-nil. Also: DHCPv4 wire-enum constants equal spec/constants.json.",
  "C08": " Also: no decoder makes memory reachable from a package-level variable part of the value it produces (decoded messages share nothing with each other).",
- "C09": " The repeated-ToBytes rule is interprocedural (helpers of the module are expanded at their call sites).",
+ "C09": " Also: no allocation sized by an unvalidated wire length (K5); no decoder formats a byte slice derived from its input (K6); no accumulator grown through a capacity-clipped alias of itself. The repeated-ToBytes rule is interprocedural (helpers of the module are expanded at their call sites).",
  "C10": " Also: slice-typed Client state is never returned, stored or sent (accessors hand out copies); cancel pairing on every exit of send/SendAndRead and cancel-by-identity (shared with C11; defect F10 repaired in 9686be8); the receive buffer is a constant >= 1500 bytes. Filter rules are evaluated on the split graph, so nested ifs, && chains and switch cases are judged alike.",
  "C11": " Also: cancel removes only the entry this call registered (identity test; defect F10 found by this rule and repaired in 9686be8); the internal deadline sentinel is a distinct errors.New value. Also: only the internal per-try deadline sentinel leads to another try; every other result of a try, including the context's error, is returned at once (shared with C12).",
  "C12": " Also: the internal deadline sentinel is a distinct errors.New value; in the constructor no field the retry driver reads is written after an option ran (defaults first). Also: no path from the deadline edge to the next try avoids the doubling; every in-repo Logger.PrintMessage implementation writes nothing reachable from the message it prints (E3).",
  "C13": " Also: the receive loops deliver messages that do not alias the per-datagram read buffer and decoded option values are exactly the bytes consumed for their code (shared with C10/C01); message-type constants equal spec/constants.json.",
- "C14": " Also: the decoder called per datagram returns a value sharing no memory with package-level variables.",
+ "C14": " Also (K7): the handler field Serve reads is set only to the caller's handler or to a wrapper that calls it exactly once with its own arguments on every path. Also: the decoder called per datagram returns a value sharing no memory with package-level variables.",
  "C15": " Also: decoded option values are append(previous value, consumed chunk) — a zero-length option stays nil, which 'copied when present' depends on; message-type constants equal spec/constants.json.",
  "C16": " Also: DHCPv6 message-type constants equal spec/constants.json.",
  "C17": " Also: an accessor's result derives only from its option lookup, constants and non-receiver parameters (K6); the shared string helper returns string(raw) unchanged. Also: string accessors return the decoded string or strings.TrimRight(s, NUL) of it; DHCPv4 option-code constants equal spec/constants.json.",
